@@ -175,6 +175,7 @@ type runResult struct {
 	solverSec float64
 	sel       selection
 	bounded   []*boundedResult
+	uncontracted []string // exported functions of the property's anchor files that carry no contract
 }
 
 func hasProp(c *Contract, props []string) bool {
@@ -225,6 +226,7 @@ func run(cfg runConfig) (*runResult, error) {
 		res.sel = selectFor(cfg.prop, props[cfg.prop], db, fns, lr, cfg.repo, cfg.tier == "thorough")
 		keys = res.sel.keys
 		cfg.props = nil
+		res.uncontracted = uncontractedExported(props[cfg.prop], db, fns, lr, cfg.repo)
 	} else {
 		for k := range db.Contracts {
 			keys = append(keys, k)
@@ -283,6 +285,17 @@ func run(cfg runConfig) (*runResult, error) {
 				res.bounded = append(res.bounded, runBounded(cfg.repo, shortKeyName(k), h))
 			}
 		}
+	}
+	if cfg.prop == "C20" && cfg.funcs == "" {
+		n, stores := globalStoreScan(lr, modPath)
+		o := &Obligation{Name: "module#global-stores", Kind: "ground", Func: "module", Goal: mkBool(len(stores) == 0), Props: []string{"C20"},
+			Text: fmt.Sprintf("no function of the module (%d scanned, tests excluded) stores to a package-level variable outside package initialisation", n)}
+		stt := "unsat"
+		if len(stores) > 0 {
+			stt = "sat"
+		}
+		o.Result = &SolveResult{Status: stt, Solver: "ground", Backend: "ground", Output: strings.Join(stores, "\n")}
+		e.obls = append(e.obls, o)
 	}
 	if cfg.prop == "C05" || cfg.tables {
 		td := e.loadTables(cfg.repo)
